@@ -42,6 +42,11 @@ pub struct Case {
     pub ambient_b: Option<TapeSpec>,
     /// other estimators are fitted between the twins (consume ambient words, allocate hash maps)
     pub pollute: bool,
+    /// the call sequence issued against each fitted forest: 0 = predict(training rows + queries),
+    /// 1 = predict_oob(training rows) (skipped when keep_samples is off), 2 = predict(a matrix of the
+    /// training matrix's shape but different content: the training rows in reverse order, shifted)
+    #[serde(default)]
+    pub ops: Vec<u8>,
     pub kind: String,
 }
 
@@ -68,6 +73,9 @@ struct FitOut {
     bytes: Vec<u8>,
     pred: Vec<f64>,
     oob: Option<Vec<f64>>,
+    alt: Option<Vec<f64>>,
+    repeat_mismatch: Option<String>,
+    calls: u64,
     words_consumed: Option<usize>,
     value: Value,
     err: Option<String>,
@@ -80,7 +88,7 @@ fn fit_once(case: &Case, ambient: &Option<TapeSpec>) -> (FitOut, Option<Box<dyn 
     let qm = mat(&q);
     let guard = ambient.as_ref().map(TapeGuard::install);
     let p = &case.params;
-    let mut out = FitOut { bytes: vec![], pred: vec![], oob: None, words_consumed: None, value: Value::Null, err: None };
+    let mut out = FitOut { bytes: vec![], pred: vec![], oob: None, alt: None, repeat_mismatch: None, calls: 0, words_consumed: None, value: Value::Null, err: None };
     let mut model_box: Option<Box<dyn std::any::Any + Send>> = None;
     if case.task == "clf" {
         let params = RandomForestClassifierParameters {
@@ -100,18 +108,7 @@ fn fit_once(case: &Case, ambient: &Option<TapeSpec>) -> (FitOut, Option<Box<dyn 
                 out.words_consumed = guard.as_ref().map(|g| g.served());
                 out.bytes = bincode::serialize(&model).unwrap_or_default();
                 out.value = serde_json::to_value(&model).unwrap_or(Value::Null);
-                match guarded(|| model.predict(&qm)) {
-                    Ok(Ok(v)) => out.pred = v,
-                    Ok(Err(e)) => out.err = Some(format!("predict error: {}", e)),
-                    Err(m) => out.err = Some(format!("predict panic: {}", m)),
-                }
-                if p.keep_samples {
-                    match guarded(|| model.predict_oob(&x)) {
-                        Ok(Ok(v)) => out.oob = Some(v),
-                        Ok(Err(e)) => out.err = Some(format!("predict_oob error: {}", e)),
-                        Err(m) => out.err = Some(format!("predict_oob panic: {}", m)),
-                    }
-                }
+                run_ops(case, &mut out, &x, &qm, &|m| model.predict(m), &|m| model.predict_oob(m));
                 model_box = Some(Box::new(model));
             }
         }
@@ -132,18 +129,7 @@ fn fit_once(case: &Case, ambient: &Option<TapeSpec>) -> (FitOut, Option<Box<dyn 
                 out.words_consumed = guard.as_ref().map(|g| g.served());
                 out.bytes = bincode::serialize(&model).unwrap_or_default();
                 out.value = serde_json::to_value(&model).unwrap_or(Value::Null);
-                match guarded(|| model.predict(&qm)) {
-                    Ok(Ok(v)) => out.pred = v,
-                    Ok(Err(e)) => out.err = Some(format!("predict error: {}", e)),
-                    Err(m) => out.err = Some(format!("predict panic: {}", m)),
-                }
-                if p.keep_samples {
-                    match guarded(|| model.predict_oob(&x)) {
-                        Ok(Ok(v)) => out.oob = Some(v),
-                        Ok(Err(e)) => out.err = Some(format!("predict_oob error: {}", e)),
-                        Err(m) => out.err = Some(format!("predict_oob panic: {}", m)),
-                    }
-                }
+                run_ops(case, &mut out, &x, &qm, &|m| model.predict(m), &|m| model.predict_oob(m));
                 model_box = Some(Box::new(model));
             }
         }
@@ -153,6 +139,79 @@ fn fit_once(case: &Case, ambient: &Option<TapeSpec>) -> (FitOut, Option<Box<dyn 
     }
     drop(guard);
     (out, model_box)
+}
+
+/// the "different content, same shape" matrix of op 2
+fn alt_rows(case: &Case) -> Vec<Vec<f64>> {
+    let mut r: Vec<Vec<f64>> = case.x.iter().rev().cloned().collect();
+    for (i, row) in r.iter_mut().enumerate() {
+        row[0] += 0.5 + (i % 3) as f64;
+    }
+    r
+}
+
+type PredFn<'a> = &'a dyn Fn(&DenseMatrix<f64>) -> Result<Vec<f64>, smartcore::error::Failed>;
+
+/// issue the case's call sequence against one fitted forest; the first result of each kind is kept
+/// for the oracles, every repetition must be bit-identical to it
+fn run_ops(case: &Case, out: &mut FitOut, x: &DenseMatrix<f64>, qm: &DenseMatrix<f64>, predict: PredFn<'_>, predict_oob: PredFn<'_>) {
+    let alt = mat(&alt_rows(case));
+    let default_ops = [0u8, 1u8];
+    let ops: &[u8] = if case.ops.is_empty() { &default_ops } else { &case.ops };
+    let mut seen_pred = false;
+    for (step, op) in ops.iter().enumerate() {
+        if *op == 1 && !case.params.keep_samples {
+            continue;
+        }
+        out.calls += 1;
+        let r = match op {
+            0 => guarded(|| predict(qm)),
+            1 => guarded(|| predict_oob(x)),
+            _ => guarded(|| predict(&alt)),
+        };
+        let name = ["predict", "predict_oob", "predict(other matrix of the training shape)"][(*op).min(2) as usize];
+        let v = match r {
+            Ok(Ok(v)) => v,
+            Ok(Err(e)) => {
+                out.err = Some(format!("{} error: {}", name, e));
+                return;
+            }
+            Err(m) => {
+                out.err = Some(format!("{} panic: {}", name, m));
+                return;
+            }
+        };
+        let first: Option<Vec<f64>> = match op {
+            0 => {
+                if seen_pred {
+                    Some(out.pred.clone())
+                } else {
+                    None
+                }
+            }
+            1 => out.oob.clone(),
+            _ => out.alt.clone(),
+        };
+        match first {
+            Some(f) => {
+                if bits(&f) != bits(&v) && out.repeat_mismatch.is_none() {
+                    let at = f.iter().zip(v.iter()).position(|(a, b)| a.to_bits() != b.to_bits());
+                    out.repeat_mismatch = Some(format!(
+                        "call {} of the sequence {:?} ({}) returned a different result than the first {} (first difference at row {:?})",
+                        step, ops, name, name, at
+                    ));
+                }
+            }
+            None => match op {
+                0 => {
+                    out.pred = v;
+                    seen_pred = true;
+                }
+                1 => out.oob = Some(v),
+                _ => out.alt = Some(v),
+            },
+        }
+    }
 }
 
 fn bits(v: &[f64]) -> Vec<u64> {
@@ -294,9 +353,16 @@ impl C06 {
                 format!("{}: two fits with identical data, parameters and seed differ (twin on another thread, ambient RNG {}; serialised models {} vs {} bytes, first difference at byte {:?}; twin error {:?})",
                     ctx, if amb_differs { "different" } else { "same" }, a.bytes.len(), b.bytes.len(), first, b.err),
             );
-        } else if bits(&a.pred) != bits(&b.pred) || a.oob.as_ref().map(|v| bits(v)) != b.oob.as_ref().map(|v| bits(v)) {
+        } else if bits(&a.pred) != bits(&b.pred)
+            || a.oob.as_ref().map(|v| bits(v)) != b.oob.as_ref().map(|v| bits(v))
+            || a.alt.as_ref().map(|v| bits(v)) != b.alt.as_ref().map(|v| bits(v))
+        {
             rep.fail("irreproducible", "same-model-different-predictions", format!("{}: twins are byte-identical but predict differently", ctx));
         }
+        if let Some(m) = a.repeat_mismatch.as_ref().or(b.repeat_mismatch.as_ref()) {
+            rep.fail("irreproducible", "same-forest-different-answers", format!("{}: {}", ctx, m));
+        }
+        rep.count("steps.forest_api_calls", a.calls + b.calls);
         // model's own equality: a model equals its twin
         if case.task == "clf" {
             if let (Ok(ma), Ok(mb)) = (bincode::deserialize::<RandomForestClassifier<f64>>(&a.bytes), bincode::deserialize::<RandomForestClassifier<f64>>(&b.bytes)) {
@@ -334,7 +400,12 @@ impl C06 {
         // ---- 3. aggregation: rebuild every member tree from the serde image and call its real predict
         let mut q = case.x.clone();
         q.extend(case.queries.iter().cloned());
-        let qm = mat(&q);
+        let nq = q.len();
+        // member trees also predict the op-2 matrix (appended after the queries)
+        let altm = alt_rows(case);
+        let mut q_all = q.clone();
+        q_all.extend(altm.iter().cloned());
+        let qm = mat(&q_all);
         let mut member: Vec<Vec<f64>> = vec![];
         for (t, tv) in trees.iter().enumerate() {
             let r = if case.task == "clf" {
@@ -375,11 +446,22 @@ impl C06 {
             (votes, if rows_of_trees.is_empty() { f64::NAN } else { sum / rows_of_trees.len() as f64 })
         };
         let all: Vec<usize> = (0..member.len()).collect();
-        if a.pred.len() == q.len() && !member.is_empty() {
-            for i in 0..q.len() {
+        // forest answers to judge: predict(q) followed, when issued, by predict(other matrix)
+        let q = q_all;
+        let mut a_pred_all = a.pred.clone();
+        let judged = if let Some(alt) = &a.alt {
+            a_pred_all.extend(alt.iter().cloned());
+            q.len()
+        } else {
+            nq
+        };
+        let pred_ok_len = a.pred.len() == nq && a.alt.as_ref().map(|v| v.len() == n).unwrap_or(true);
+        let a_pred = a_pred_all;
+        if pred_ok_len && !member.is_empty() && !a.pred.is_empty() {
+            for i in 0..judged {
                 let (votes, mean) = agg(&all, i);
                 if case.task == "clf" {
-                    let got = a.pred[i];
+                    let got = a_pred[i];
                     let maxv = votes.iter().map(|e| e.1).max().unwrap_or(0);
                     match votes.iter().find(|e| e.0 == got) {
                         None => {
@@ -399,20 +481,20 @@ impl C06 {
                         break;
                     }
                 } else {
-                    let err = (a.pred[i] - mean).abs();
+                    let err = (a_pred[i] - mean).abs();
                     rep.max("reg_mean_err_rel", err / yscale);
                     if !(err <= 1e-12 * yscale) {
-                        rep.fail("not-mean", "forest-predict", format!("{}: predict returned {:e} for row {:?}; the mean of the member trees is {:e}", ctx, a.pred[i], q[i], mean));
+                        rep.fail("not-mean", "forest-predict", format!("{}: predict returned {:e} for row {:?}; the mean of the member trees is {:e}", ctx, a_pred[i], q[i], mean));
                         break;
                     }
-                    if !(a.pred[i] >= ymin - 1e-9 * yscale && a.pred[i] <= ymax + 1e-9 * yscale) {
-                        rep.fail("out-of-range", "forest-predict", format!("{}: prediction {:e} for row {:?} is outside the target range [{:e}, {:e}]", ctx, a.pred[i], q[i], ymin, ymax));
+                    if !(a_pred[i] >= ymin - 1e-9 * yscale && a_pred[i] <= ymax + 1e-9 * yscale) {
+                        rep.fail("out-of-range", "forest-predict", format!("{}: prediction {:e} for row {:?} is outside the target range [{:e}, {:e}]", ctx, a_pred[i], q[i], ymin, ymax));
                         break;
                     }
                 }
             }
-        } else if a.pred.len() != q.len() {
-            rep.fail("shape", "forest-predict", format!("{}: {} predictions for {} rows", ctx, a.pred.len(), q.len()));
+        } else if !pred_ok_len {
+            rep.fail("shape", "forest-predict", format!("{}: {} predictions for {} rows (other matrix: {:?} for {})", ctx, a.pred.len(), nq, a.alt.as_ref().map(|v| v.len()), n));
         }
         // ---- 4. out-of-bag history
         let mut rows_with_oob = 0usize;
@@ -477,10 +559,12 @@ impl C06 {
             }
         }
         rep.count("probe.m-equals-p-no-feature-shuffle", (pr.m == Some(p)) as u64);
-        // verdict is part of the harness-level log
-        d.str(rep.violation.as_ref().map(|v| v.class.as_str()).unwrap_or("ok"));
+        // harness-level log only (case, words served): a verdict that flips between two executions of the
+        // same case is C06's own violation (class irreproducible), never a harness error
         rep.log_digest = d.get();
-        if pr.n_trees >= 2 && (rows_with_oob > 0 || !pr.keep_samples) {
+        let rows_with_oob_tree = samples.as_ref().map(|s| (0..n).filter(|i| s.iter().any(|m| m.len() == n && !m[*i])).count()).unwrap_or(0);
+        let _ = rows_with_oob;
+        if pr.n_trees >= 2 && (rows_with_oob_tree > 0 || !pr.keep_samples) {
             let mut sd = Digest::new();
             sd.u64(pr.seed).u64(rep.aux_digest);
             rep.schedule = Some(sd.get());
@@ -577,7 +661,14 @@ fn gen_case(batch: &str, _index: u64, seed: u64) -> Case {
         }
         _ => panic!("unknown batch {}", batch),
     };
-    Case { task: task.into(), x, y, params, queries, ambient_a, ambient_b, pollute: pr.chance(0.5), kind: kind.into() }
+    // call sequence: always at least one predict; order and repetitions vary (swarm style)
+    let mut ops: Vec<u8> = vec![0];
+    let extra = pr.usize_in(1, 5);
+    for _ in 0..extra {
+        ops.push(pr.below(3) as u8);
+    }
+    pr.shuffle(&mut ops);
+    Case { task: task.into(), x, y, params, queries, ambient_a, ambient_b, pollute: pr.chance(0.5), ops, kind: kind.into() }
 }
 
 impl Property for C06 {
@@ -670,6 +761,15 @@ impl Property for C06 {
             c.pollute = false;
             push(c);
         }
+        if case.ops.len() > 1 {
+            for i in 0..case.ops.len() {
+                let mut c = case.clone();
+                c.ops.remove(i);
+                if c.ops.contains(&0) {
+                    push(c);
+                }
+            }
+        }
         if p > 1 {
             for j in 0..p {
                 let mut c = case.clone();
@@ -714,7 +814,7 @@ impl Property for C06 {
     }
     fn sample(&self, case: &Case, report: &Report) -> Value {
         json!({
-            "task": case.task, "kind": case.kind, "n": case.x.len(), "p": case.x[0].len(), "params": case.params, "pollute": case.pollute,
+            "task": case.task, "kind": case.kind, "n": case.x.len(), "p": case.x[0].len(), "params": case.params, "pollute": case.pollute, "call_sequence": case.ops,
             "first_rows": case.x.iter().take(2).collect::<Vec<_>>(), "first_targets": case.y.iter().take(6).collect::<Vec<_>>(),
             "ambient_a": case.ambient_a.as_ref().map(|t| json!({"seed": t.seed, "extreme_per_mille": t.extreme_pm})),
             "ambient_b": case.ambient_b.as_ref().map(|t| json!({"seed": t.seed, "extreme_per_mille": t.extreme_pm})),
@@ -722,6 +822,10 @@ impl Property for C06 {
             "log_digest": format!("{:016x}", report.log_digest),
             "violation": report.violation.as_ref().map(|v| v.class.clone()),
         })
+    }
+    fn flaky_class(&self, class: &str) -> bool {
+        // a forest whose result depends on something other than its seed fails only with some probability per run
+        class == "irreproducible"
     }
     fn rule(&self) -> String {
         "cases: (explicit training set n 4..120 x p 1..6, 2..4 classes with arbitrary label values incl. single-row classes / real targets, forest parameters incl. seed in {0, 1, u64::MAX, random}, ambient-RNG specs for the two twins, pollution flag) \
